@@ -140,7 +140,7 @@ Proof.
   { rewrite (open_body_has _ _ _ _ _ Hmb), Eod. reflexivity. }
   pose proof (claim_body_done (chan_w s) a n side (now s) (o_draw o) np r1 Hnp Hr1 Hcl) as Ecb.
   rewrite (step_cmd cfg s c cmd o TClaim cs Hl Ht).
-  set (s0 := set_log s [LFrame c (FAck (m_id cmd)) (is_clean s)]).
+  set (s0 := set_log s [LFrame c (FAck (m_id cmd)) (is_clean s) (now s)]).
   rewrite (dispatch_bound cfg c TClaim cmd o s0 a side)
     by (try discriminate; unfold conn_of, s0; cbn [conns set_log]; rewrite Hl; exact Hb).
   rewrite (handle_claim_eval c a side cmd o n s0 cs (np_id np) (np_mbox np) (chan_w s) d2
@@ -184,7 +184,7 @@ Proof.
   assert (Ecr : (2 <? List.length (sel_mbs_all d m))%nat = false).
   { change (sel_mbs_all d m) with (sel_mbs_all (chan_w s) m). apply le2_ltb. exact Hnc. }
   rewrite (step_cmd cfg s c cmd o TOpen cs Hl Ht).
-  set (s0 := set_log s [LFrame c (FAck (m_id cmd)) (is_clean s)]).
+  set (s0 := set_log s [LFrame c (FAck (m_id cmd)) (is_clean s) (now s)]).
   rewrite (dispatch_bound cfg c TOpen cmd o s0 a side)
     by (try discriminate; unfold conn_of, s0; cbn [conns set_log]; rewrite Hl; exact Hb).
   unfold handle_open. rewrite bind_get_conn. unfold conn_of.
@@ -291,7 +291,7 @@ Proof.
   { unfold s1. cbn [conns set_log set_conns]. apply dup_lookup_snoc. exact Hl. }
   destruct (step_bind_u s1 c' a side Hl1 Hu)
     as (s2 & o2 & E2 & Hw & Hc & Hs & Hcn & Hk & Hlog & Hu1 & Hu2).
-  exists s2, (mkObs true [LFrame c' FWelcome (is_clean s)] None []), o2.
+  exists s2, (mkObs true [LFrame c' (FWelcome (welcome cfg)) (is_clean s) (now s)] None []), o2.
   split; [exact Hw|]. split; [exact Hc|]. split; [exact Hs|].
   split. { rewrite Hcn. unfold s1. cbn [conns set_log set_conns]. apply dup_update_snoc. exact Hl. }
   split; [exact Hk|]. split; [exact Hlog|]. split; [exact Hu1|]. split; [exact Hu2|].
